@@ -40,6 +40,8 @@ RULE_DOC = {
     'R24': '`uN::from_le_bytes(B[A..A+k].try_into().unwrap())` (k = 4 for u32, 8 for u64; the width is checked textually) -> `get_le_uN(B, A)`; contract ASSUMED: requires A + k <= len (so the slice bound becomes a proof obligation), returns unleK(B[A..A+k]); with the ASSUMED axiom unleK(leK(x)) == x, |leK(x)| == k',
     'R25': '`&B[A..]` -> `suffix(B, A)` (requires A <= len; ensures the view is the subrange)',
     'R26': '`io::Error::new(io::ErrorKind::InvalidData, "..")` -> `io_invalid_data()` (opaque io::Error; only Ok/Err is observed)',
+    'R28': '`E.last().is_some_and(|c| P)` -> `match E.last() { Some(c) => P, None => false }` (definition of Option::is_some_and; P verbatim)',
+    'R29': '`for P in X.drain(..) {` -> `let drained__ = drain_all(&mut X); for e__ in drained__ { let P = e__;` - drain_all is a helper whose body is `X.drain(..).collect()`; contract ASSUMED (std): it returns the old elements in order and leaves X empty',
     'R22': '`if let Some(&x) = E {` -> `if let Some(x__r) = E { let x = *x__r;` (definition of a reference pattern; Verus has no ref patterns)',
     'M3': '`fn f(mut self, ..)` -> `fn f(self, ..) { let mut self__ = self; ..` with `self` renamed to `self__` in the body (Verus has no `mut self` receivers; contracts still speak about `self`)',
     'R8t': 'tail `M.values().filter(|p| C).map(|q| E).min().unwrap_or_else(|| D)` -> `let mut m__: Option<T> = None; for (k__r, p) in M.iter() { if (C) { let q = p; m__ = opt_min(m__, E); } } match m__ { Some(x__) => x__, None => D }` (same fold as R8; unwrap_or_else spelled as a match)',
@@ -289,6 +291,15 @@ class Piece:
 
     def R26(self):
         return self.resub('R26', r'io::Error::new\(\s*io::ErrorKind::InvalidData,\s*"[^"]*",?\s*\)', 'io_invalid_data()')
+
+    def R28(self):
+        return self.resub_opt('R28', r'([\w\.]+)\.last\(\)\.is_some_and\(\|(\w+)\|\s*([^\n]+?)\);', lambda m: 'match %s.last() { Some(%s) => %s, None => false };' % (m.group(1), m.group(2), m.group(3)))
+
+    def R29(self):
+        def rep(m):
+            ind = m.group(1)
+            return '%slet drained__ = drain_all(&mut %s);\n%sfor e__ in drained__ { let %s = e__;' % (ind, m.group(3), ind, m.group(2))
+        return self.resub('R29', r'([ \t]*)for (\([^)]*\)|\w+) in ([\w\.]+)\.drain\(\.\.\) \{', rep)
 
     def R22(self):
         return self.resub('R22', r'if let Some\(&(\w+)\) = ([^\n{]+?) \{', lambda m: 'if let Some(%s__r) = %s { let %s = *%s__r;' % (m.group(1), m.group(2), m.group(1), m.group(1)))
